@@ -89,7 +89,7 @@ def main():
         shutil.copy(os.path.join(src, d), os.path.join(out, d))
 
     # ---- 2. run the checks against it
-    if result["confirmed"]:
+    if result["confirmed"] and "--confirm-only" not in sys.argv:
         all_checks = [c["property_id"] for c in json.load(open("/verif/MANIFEST.json"))["checks"]]
         todo = checks or all_checks
         caught, clean, errors = {}, [], {}
@@ -98,6 +98,9 @@ def main():
             print("REFUSING: /repo has local changes"); sys.exit(2)
         try:
             rc, o = sh("git -C /repo apply %s" % patch)
+            if rc != 0:
+                # /repo moved on since the seed was made (a later "fix:" commit next to the hunk): merge
+                rc, o = sh("git -C /repo apply --3way %s && git -C /repo reset -q" % patch)
             assert rc == 0, o
             for c in todo:
                 env = ("VERIF_RUNS=%s " % runs) if runs else ""
